@@ -141,22 +141,24 @@ def unaryOp (expr op : String) : BM String := do
     varEvaluation h false
   else fail s!"unknown unary operator \"{op}\""
 
+def notAllowedBin (op : String) (vt : ValueType) : BM String :=
+  fail s!"binary operation {op} is not allowed on type {vt.name}"
+
 def binaryOp (left op right : String) (vt : ValueType) : BM String := do
   let h ← nextHelperVar
-  let notAllowed : BM String := fail s!"binary operation {op} is not allowed on type {vt.name}"
-  if vt.isSlice then notAllowed else
+  if vt.isSlice then notAllowedBin op vt else
   match vt.dt with
   | .int =>
     if op == "*" || op == "/" || op == "%" || op == "+" || op == "-" then do
       varAssignment h s!"$(({left}{op}{right}))" false
       varEvaluation h false
-    else notAllowed
+    else notAllowedBin op vt
   | .string =>
     if op == "+" then do
       varAssignment h s!"{left}{right}" false
       varEvaluation h false
-    else notAllowed
-  | _ => notAllowed
+    else notAllowedBin op vt
+  | _ => notAllowedBin op vt
 
 def compareOpString (op : String) (vt : ValueType) : String :=
   if vt.isSlice then "" else
@@ -168,12 +170,14 @@ def compareOpString (op : String) (vt : ValueType) : String :=
   | .string => if op == "==" then "==" else if op == "!=" then "!=" else ""
   | _ => ""
 
-def comparisonOp (left op right : String) (vt : ValueType) : BM String := do
-  let os := compareOpString op vt
-  if os.length == 0 then fail s!"comparison {op} is not allowed on type {vt.name}" else
+def comparisonOpWith (os left op right : String) (vt : ValueType) : BM String :=
+  if os.length == 0 then fail s!"comparison {op} is not allowed on type {vt.name}" else do
   let h ← nextHelperVar
   varAssignment h (condAssign s!"[ \"{left}\" {os} \"{right}\" ]" "1" "0") false
   varEvaluation h false
+
+def comparisonOp (left op right : String) (vt : ValueType) : BM String :=
+  comparisonOpWith (compareOpString op vt) left op right vt
 
 def logicalOp (left op right : String) : BM String := do
   if op == "&&" || op == "||" then
@@ -230,8 +234,7 @@ def appCallString (calls : List (String × List String)) : String :=
     let args' := args.map fun a => "\"" ++ a ++ "\""
     name ++ (if args'.isEmpty then "" else " ") ++ " ".intercalate args')
 
-def appCall (calls : List (String × List String)) (used : Bool) : BM (List String) := do
-  let cs := appCallString calls
+def appCallWith (cs : String) (used : Bool) : BM (List String) := do
   if used then
     let h1 ← nextHelperVar
     let h2 ← nextHelperVar
@@ -244,21 +247,24 @@ def appCall (calls : List (String × List String)) (used : Bool) : BM (List Stri
     addLine (.appCall cs)
     pure ["", "", "0"]
 
+def appCall (calls : List (String × List String)) (used : Bool) : BM (List String) :=
+  appCallWith (appCallString calls) used
+
+def promptArg (prompt : String) : String := if prompt.length > 0 then s!" -p \"{prompt}\"" else prompt
+
 def inputOp (prompt : String) : BM String := do
   let h ← nextHelperVar
-  let p := if prompt.length > 0 then s!" -p \"{prompt}\"" else prompt
   let s ← get
-  addLine (.readIn p (varName s h false))
+  addLine (.readIn (promptArg prompt) (varName s h false))
   varEvaluation h false
 
 def copyOp (dst src : String) (global : Bool) : BM String := do
-  let s ← get
-  let d := varName s dst global
-  addLine (.sch d src)
+  let s0 ← get
+  addLine (.sch (varName s0 dst global) src)
   modify fun s => { s with sahReq := true, schReq := true }
   let h ← nextHelperVar
   let s ← get
-  varAssignment h (sliceLenString (varEvalString s d true)) false
+  varAssignment h (sliceLenString (varEvalString s (varName s0 dst global) true)) false
   let s ← get
   pure (varEvalString s h false)
 
